@@ -326,7 +326,7 @@ def prove_under(pc, goal, solver=None, ctxobj=None, timeout_ms: int = 10000) -> 
     # a goal that is (an instance of) an assumption is settled by the solver at once: ask it first, briefly
     s.push()
     try:
-        s.set("timeout", 1500)
+        s.set("timeout", 250)  # (an instance of an assumption is decided in milliseconds; anything else goes to the sum prover)
         s.add(z3.Not(goal))
         quick = s.check()
     except z3.Z3Exception:
@@ -346,11 +346,13 @@ def prove_under(pc, goal, solver=None, ctxobj=None, timeout_ms: int = 10000) -> 
             ls = _snf._light(s)
             ls.push()
             try:
+                ls.set("timeout", 300)
                 ls.add(z3.Not(goal))
                 if ls.check() == z3.unsat:
                     return {"status": "discharged", "by": "z3 (light context)"}
             finally:
                 ls.pop()
+                ls.set("timeout", 1000)
         except z3.Z3Exception:
             pass
     s.push()
